@@ -43,7 +43,8 @@ MIN = {'quick': {'distinct': 600,
                  'hooks': {'session operations': 3000, 'fresh process runs': 150,
                            'global state snapshots': 3000,
                            'additivity checks': 60},
-                 'strata': {'op read2': 50, 'op cli': 200, 'op grammar': 200,
+                 'strata': {'slash annotation under hash seeds': 40,
+                            'op read2': 50, 'op cli': 200, 'op grammar': 200,
                             'op trans': 300, 'op write_many': 50}},
        'thorough': {'distinct': 20000,
                     'hooks': {'fresh process runs': 5000}}}
@@ -121,6 +122,38 @@ def small_bank(rng, k, cont=False, pools=None):
             for j in range(k)]
 
 
+def trace_spec(rng):
+    """PTB-like tree: two or three co-indexed fillers and traces, so that
+    ptb_delete_traces with keepall + slash has annotation paths that share
+    nodes."""
+    pools = gen.Pools(cats=['S', 'NP', 'VP', 'SBAR', 'WHNP', 'PP'],
+                      pos=['NN', 'VBD', 'DT', 'IN', 'WP'])
+    for attempt in range(20):
+        spec = gen.tree(rng, rng.randint(7, 12), pools, max_arity=3,
+                        p_unary=0.1, moves=0, root_pieces=1,
+                        sid=rng.choice([1, 2]))
+        cons = [n for n in gen.walk(spec['root'])
+                if 'c' in n and n is not spec['root']]
+        toks = gen.tokens_of(spec['root'])
+        k = rng.choice([2, 2, 3])
+        if len(cons) < k + 1 or len(toks) < k + 3:
+            continue
+        fillers = rng.sample(cons, k)
+        inside = set()
+        for f in fillers:
+            inside.update(id(t) for t in gen.tokens_of(f))
+        free = [t for t in toks if id(t) not in inside]
+        if len(free) < k:
+            continue
+        traces = rng.sample(free, k)
+        for i, (f, t) in enumerate(zip(fillers, traces)):
+            f['l'] = f['l'] + '-%d' % (i + 1)
+            t['w'] = rng.choice(['*T*', '*', '*ICH*']) + '-%d' % (i + 1)
+            t['p'] = '-NONE-'
+        return spec
+    return spec
+
+
 def make_op(rng, tag, tfiles):
     kind = rng.choice(['read', 'read', 'read2', 'trans', 'trans', 'trans',
                        'write', 'write_many', 'grammar', 'grammar', 'analysis',
@@ -148,6 +181,14 @@ def make_op(rng, tag, tfiles):
         spec = gen.tree(rng, rng.randint(2, 9), pools,
                         max_arity=rng.choice([2, 3, 5]), p_unary=0.15,
                         moves=rng.choice([0, 1, 2]), sid=rng.choice([1, 2]))
+        if r > 0.85:
+            params = rng.choice([{'keepall': True, 'slash': True},
+                                 {'keepall': True, 'slash': True,
+                                  'keepcoindex': True},
+                                 {'keep': '*T*,*', 'slash': True}, {}])
+            return {'k': 'trans', 'names': ['ptb_delete_traces'],
+                    'spec': trace_spec(rng), 'params': params,
+                    'shuffle': rng.randrange(99)}
         if r < 0.4:
             name = rng.choice(['insert_terminals', 'substitute_terminals'])
             tname = rng.choice(sorted(tfiles))
@@ -484,6 +525,30 @@ def additive_case(ctx, case, tmp):
 def shard(ctx):
     for i in ctx.indices(ctx.pick(160, 6000)):
         run_session(ctx, i, ctx.rng('session', i))
+    # slash annotation under several hash seeds (set/dict iteration order)
+    for i in ctx.indices(ctx.pick(48, 1500)):
+        rng = ctx.rng('slash', i)
+        op = {'k': 'trans', 'names': ['ptb_delete_traces'],
+              'spec': trace_spec(rng),
+              'params': rng.choice([{'keepall': True, 'slash': True},
+                                    {'keepall': True, 'slash': True,
+                                     'keepcoindex': True}]),
+              'shuffle': rng.randrange(99)}
+        tmp = ctx.path('.slash')
+        os.mkdir(tmp)
+        here = norm(c18_ops.execute(ctx.R, copy.deepcopy(op), tmp, set()))
+        for hs in (1, 2, 3):
+            out, err = fresh(ctx, op, hs)
+            if out is not None and out != here:
+                ctx.fail('C18:differs-from-fresh-process:' + op_shape(op),
+                         {'kind': 'fresh', 'op': op, 'hashseed': hs,
+                          'pool': [op], 'seq': [0]},
+                         'PYTHONHASHSEED=0 in this process: %s | '
+                         'PYTHONHASHSEED=%s fresh: %s'
+                         % (str(here)[:300], hs, str(out)[:300]))
+                break
+        ctx.stratum('slash annotation under hash seeds')
+        ctx.case(op, nontrivial=True)
     for i in ctx.indices(ctx.pick(160, 6000)):
         additivity(ctx, ctx.rng('add', i))
 
